@@ -488,9 +488,14 @@ fn debug_selfcheck(rng: &mut StdRng) {
                 mem.add_cas_block(x).unwrap();
             }
             let dir = tempfile::tempdir().unwrap();
-            if let Err(p) = catch_unwind(AssertUnwindSafe(|| mem.write_to_directory(dir.path()))) {
+            // (write_to_directory runs the self-check itself when mdb_shard is built with debug assertions; the replay crate builds it
+            // without, so it is called explicitly here - it is the same public function)
+            if let Err(p) = catch_unwind(AssertUnwindSafe(|| {
+                let path = mem.write_to_directory(dir.path()).unwrap();
+                mdb_shard::MDBShardFile::load_from_file(&path).unwrap().verify_shard_integrity();
+            })) {
                 let msg = p.downcast_ref::<String>().cloned().unwrap_or_default();
-                witness(format!("(debug-build self-check) a shard of 2 xorbs with {n} chunks each in which one chunk hash occurs in both xorbs (trial {trial}): MDBInMemoryShard::write_to_directory panics in verify_shard_integrity: {}", &msg[..msg.len().min(300)]));
+                witness(format!("(debug-build self-check) a shard of 2 xorbs with {n} chunks each in which one chunk hash occurs in both xorbs (trial {trial}): the shard writer's debug-build self-check MDBShardFile::verify_shard_integrity (run by write_to_directory / load / register when mdb_shard has debug assertions) panics: {}", &msg[..msg.len().min(300)]));
             }
         }
     }
@@ -522,8 +527,10 @@ fn main() {
         let c = generate(&mut rng, nf, nx, dist, &groups, true);
         check_serialized(&mut rng, name, &c);
         if with_manager {
-            // (no two chunks with one truncated prefix here: in debug builds the shard writer's self-check
-            // verify_shard_integrity panics on some such shards, see debug_selfcheck below)
+            // with duplicate / prefix-colliding chunks (needs mdb_shard built without debug assertions, as Cargo.toml.in does: with
+            // them the shard writer's self-check verify_shard_integrity panics on some such shards, see debug_selfcheck below) ...
+            check_manager(&rt, &mut rng, name, &c);
+            // ... and without
             let c = generate(&mut rng, nf, nx, dist, &groups, false);
             check_serialized(&mut rng, name, &c);
             check_manager(&rt, &mut rng, name, &c);
